@@ -52,3 +52,11 @@ def c12_bare_string_reference_cached_by_name(clause, case, detail):
     the first module's class. Diagnosed like c12_served_by_equal_type, partner = the other module."""
     d = case.get("diag", "")
     return clause == "same-as-cold-process" and d.startswith("served-by-equal-type:'Item'@")
+
+
+@predicate("c02_string_alias_of_bytes")
+def c02_string_alias_of_bytes(clause, case, detail):
+    """Root cause: codec() / typelib.encode / typelib.decode decide "bytes are their own wire format" from the annotation as
+    written (after unwrap); a string-valued alias of a bytes-like class (`TypeAliasType("P", "bytes")`) is still a reference at
+    that point, so the JSON encoder / decoder is applied to the payload. marshal / unmarshal resolve the reference and work."""
+    return clause in ("bytes-verbatim-encode", "bytes-verbatim-decode") and case.get("wrap") == "stralias"
